@@ -1336,11 +1336,13 @@ fn read_element_values_named<A: NamedElementValuesVisitor>(reader: &mut impl Cla
 			b'@' => {
 				let annotation_descriptor = FieldDescriptor::try_from(pool.get_utf8(reader.read_u16()?)?)?;
 				let (visitor, inner) = outer.visit_annotation(name, annotation_descriptor)?;
+				let _guard = pool.enter_nesting()?;
 				let inner = read_element_values_named(reader, pool, inner)?;
 				outer = A::finish_annotation(visitor, inner)?;
 			},
 			b'[' => {
 				let (visitor, inner) = outer.visit_array(name)?;
+				let _guard = pool.enter_nesting()?;
 				let inner = read_element_values_unnamed(reader, pool, inner)?;
 				outer = A::finish_array(visitor, inner)?;
 			},
@@ -1418,11 +1420,13 @@ fn read_element_value_unnamed<A: UnnamedElementValueVisitor>(reader: &mut impl C
 		b'@' => {
 			let annotation_descriptor = FieldDescriptor::try_from(pool.get_utf8(reader.read_u16()?)?)?;
 			let (visitor, inner) = outer.visit_annotation(annotation_descriptor)?;
+			let _guard = pool.enter_nesting()?;
 			let inner = read_element_values_named(reader, pool, inner)?;
 			outer = A::finish_annotation(visitor, inner)?;
 		},
 		b'[' => {
 			let (visitor, inner) = outer.visit_array()?;
+			let _guard = pool.enter_nesting()?;
 			let inner = read_element_values_unnamed(reader, pool, inner)?;
 			outer = A::finish_array(visitor, inner)?;
 		},
